@@ -64,7 +64,11 @@ func childSA(e, i int) *security.ChildSAKey {
 
 // deriveChild runs GenerateKeyForChildSA and returns the four keys.
 func deriveChild(sa *security.IKESAKey, e, i int, nonce []byte) (ref.ChildKeys, error) {
-	c := childSA(e, i)
+	return deriveChildOn(childSA(e, i), sa, nonce)
+}
+
+// deriveChildOn keys an existing Child SA object.
+func deriveChildOn(c *security.ChildSAKey, sa *security.IKESAKey, nonce []byte) (ref.ChildKeys, error) {
 	var out ref.ChildKeys
 	err := probe.Try(func() error { return c.GenerateKeyForChildSA(sa, append([]byte(nil), nonce...)) })
 	if err != nil {
